@@ -187,4 +187,48 @@ theorem dreach_inv {s : Dec} (h : DReach s) : DecInv s := by
   | reset _ ih => exact decInv_reset ih
   | decode O x _ ih => exact decInv_decodeStep O x ih
 
+theorem decStepCheck_ok {pre post : Dec} {dn : Bool} (hc : decConstSame pre post = true)
+    (h : post = pre ∨ concealClaim pre post = true ∨ (dn = false ∧ packetClaim pre post = true)) :
+    decStepCheck pre post dn = "ok" := by
+  unfold decStepCheck
+  simp only [hc, Bool.not_true, Bool.false_eq_true, if_false]
+  by_cases h1 : post = pre
+  · simp [h1]
+  · by_cases h2 : concealClaim pre post = true
+    · simp [h1, h2]
+    · rcases h with h | h | ⟨hd, hpk⟩
+      · exact absurd h h1
+      · exact absurd h h2
+      · simp [h1, h2, hd, hpk]
+
+/-- The checker used by the correspondence suite accepts everything the footprint can do: whatever the oracles
+    answer, the state `decodeStep` produces passes `decStepCheck` (with `dataNull` only when the call did not take
+    the packet path).  So a "…-claim-violated" verdict on a real call means the code did something the model cannot. -/
+theorem decStepCheck_model (O : DOracles) (s : Dec) (x : DInp) (dataNull : Bool)
+    (hn : dataNull = true → O.path (decView s) x ≠ .packet) :
+    decStepCheck s (decodeStep O s x).1 dataNull = "ok" := by
+  unfold decodeStep
+  simp only []
+  cases hp : O.path (decView s) x <;> simp only []
+  · exact decStepCheck_ok (by simp [decConstSame]) (Or.inl rfl)
+  · have hvr : (decView s).prevRedundancy = s.prevRedundancy := rfl
+    have hvm : (decView s).prevMode = s.prevMode := rfl
+    simp only [hvr, hvm]
+    by_cases hm : (if s.prevRedundancy ≠ 0 then MODE_CELT_ONLY else s.prevMode) = 0
+    · simp only [hm, if_true]
+      exact decStepCheck_ok (by simp [decConstSame]) (Or.inr (Or.inl (by simp [concealClaim, hm])))
+    · simp only [hm, if_false]
+      refine decStepCheck_ok (by simp [decConstSame]) (Or.inr (Or.inl ?_))
+      simp only [concealClaim]
+      rw [if_neg hm]
+      simp
+  · have hd : dataNull = false := by
+      cases dataNull with
+      | false => rfl
+      | true => exact absurd hp (hn rfl)
+    refine decStepCheck_ok (by simp [decConstSame]) (Or.inr (Or.inr ⟨hd, ?_⟩))
+    by_cases hw : isSilkMode (O.res (decView s) x).prevMode = true
+    · simp [packetClaim, hw]
+    · simp [packetClaim, hw]
+
 end Opus.ResetState
